@@ -235,7 +235,10 @@ def _parsed_job(arg):
     donors = seeds.all_seeds()
     for cls in lib.concrete_classes()[index::shards]:
         ref = lib.ref_of(cls)
-        base = seeds.seeds_for(cls)
+        base = list(seeds.seeds_for(cls))
+        # hand-made variants of the seeds the unit tests do not have (certificates without an extension block,
+        # BER length forms, three-byte SSL 2.0 headers): objects with absent optional parts
+        base += [data for data in registry.composed_examples(cls) if data not in base and len(data) <= 4096][:12]
         inputs = list(base)
         if base:
             for number in range(mutants):
